@@ -15,7 +15,7 @@ def c14(ctx: Ctx):
         "TLC and the CommunityModules Json/CSV modules",
         "the harness's scripted handler, recording ResponseWriter (net/http status-code panic emulated) and request realiser (harness/c14.go)",
         "two fixed test documents (4 operations without / 2 operations with a global security requirement; response map {200: json schema, 201: no content}); handler alphabet and body tokens as in spec/Middleware.tla",
-        "the ClientModel of spec/Middleware.tla is net/http's: first final WriteHeader wins, 1xx (other than 101) commits nothing, Write/Flush imply 200",
+        "the ClientModel of spec/Middleware.tla (first final WriteHeader wins, 1xx other than 101 commits nothing, Write/Flush imply 200) is net/http's for the statuses of the universe {103, 200, 201, 500} and the error statuses: judged per run against a real net/http server + client for behaviours of <= 2 calls and all with a 1xx status (clause client_model_is_net_http); statuses that forbid a body (204, 304) and 101 are outside the universe",
         "bodies made of a complete valid JSON document followed by more bytes are outside the universe (Clear)",
     ]
     if ctx.replay:
